@@ -11,6 +11,7 @@
 struct File *vb_file;
 int g_drop_calls, g_push_calls, g_delete_calls, g_writeLC_calls, g_next_calls, g_encode_calls;
 int g_compress_calls, g_compress_method, g_compress_level, g_lcwrite_calls, g_lcdtor;
+int g_lcread_calls, g_hdr_bad;
 int g_eos_queue, g_eos_stream, g_stats_written, g_seekp_calls, g_closed, g_abort_q, g_abort_u;
 uint32_t g_eos_queue_arg; int64_t g_eos_stream_arg, g_seekp_arg;
 struct ObjectHeaderBase *g_pushed, *g_deleted, *g_created, *g_dequeued;
@@ -47,7 +48,7 @@ void UncompressedFile_read(struct UncompressedFile *u, char *s, int64_t n)
     g_read_req = n;
     int64_t m = n;
     if (n + u->m_tellg > u->m_fileSize) { m = u->m_fileSize - u->m_tellg; u->m_rdstate = IOS_eofbit | IOS_failbit; }
-    else u->m_rdstate = IOS_goodbit;
+    else if (n > 0) u->m_rdstate = IOS_goodbit;
     if (m < 0) m = 0;
     if (u->m_abort) { int64_t a = vb_nondet_i64(); __CPROVER_assume(a >= 0 && a <= m); m = a; }   /* aborted: whatever is buffered */
     if (m > 0) __CPROVER_havoc_slice(s, (size_t)m);
@@ -131,13 +132,12 @@ void ObjectHeaderBase_read(struct ObjectHeaderBase *self, struct AbstractFile *i
             int64_t g = vb_nondet_i64(); __CPROVER_assume(g >= u->m_tellg + 16 && g <= u->m_fileSize);
             u->m_tellg = g; g_sig_pos = g - 16; u->m_rdstate = IOS_goodbit; self->signature = VBC_ObjectSignature;
         } else {
-            int64_t g = vb_nondet_i64(); __CPROVER_assume(g >= u->m_tellg && g <= u->m_fileSize);
-            u->m_tellg = g; u->m_rdstate = IOS_eofbit | IOS_failbit;
+            u->m_tellg = u->m_fileSize; u->m_rdstate = IOS_eofbit | IOS_failbit;      /* cut short: consumed to the declared end (C09) */
             if (k == 1) vb_exc = VB_EXC_BLF;
         }
     } else {
         if (k == 0) { c->cg = c->cg + 16 + (int64_t)(vb_nondet_u32() & 0xffff); c->cstate = IOS_goodbit; self->signature = VBC_ObjectSignature; }
-        else { c->cstate = IOS_eofbit | IOS_failbit; if (k == 1) vb_exc = VB_EXC_BLF; }
+        else { c->cstate = IOS_eofbit | IOS_failbit; g_hdr_bad = 1; if (k == 1) vb_exc = VB_EXC_BLF; }
     }
 }
 uint16_t ObjectHeaderBase_calculateHeaderSize(struct ObjectHeaderBase *self) { return 16; }
@@ -173,6 +173,7 @@ void LogContainer_read(struct LogContainer *lc, struct AbstractFile *af)
 {
     struct CompressedFile *c = &vb_file->m_compressedFile;
     __CPROVER_assert(af == &c->b_AbstractFile, "LogContainer::read precondition");
+    g_lcread_calls++;
     lc->compressionMethod = (uint16_t)vb_nondet_int(); lc->uncompressedFileSize = vb_nondet_u32();
     lc->compressedFileSize = vb_nondet_u32(); lc->compressedFile.size = lc->compressedFileSize;
     lc->b_ObjectHeaderBase.objectSize = vb_nondet_u32();
